@@ -1024,7 +1024,7 @@ pub mod fastq {
             to.line == true_line(old(self).f(), to.byte as int),
         ensures
             [C02,C03,C04,C05,C06|fastq.seek.frame] final(self).f() == old(self).f() && final(self).buf_policy == old(self).buf_policy,
-            [C04,C05|fastq.seek.positioned] r is Ok ==> final(self).wf() && final(self).state == State::Positioned && final(self).incomplete_pos is None
+            [C04,C05,C06|fastq.seek.positioned] r is Ok ==> final(self).wf() && final(self).state == State::Positioned && final(self).incomplete_pos is None
                 && final(self).position == *to && final(self).gpos() == to.byte && final(self).cursor() == to.byte
                 && final(self).buf_reader.errs() == old(self).buf_reader.errs(),
             [C09|fastq.seek.capacity] final(self).buf_reader.cap() == old(self).buf_reader.cap(),
